@@ -21,7 +21,7 @@ CONFIG = {
                    "zero base-58 digits (a probe counts it; ~1 in 58 per leading digit), plus a handful of decoder round "
                    "trips on small values through bytes_for_hash_string."),
     "technique": "deterministic simulation: seeded file lengths/contents x simulator-chosen read chunking x entry points against independent digests",
-    "quick": {"runs": 160, "budget_s": 60},
+    "quick": {"runs": 320, "budget_s": 90},
     "thorough": {"runs": 3000, "budget_s": 540},
     "rule": ("one run = world with 2..6 files + create, verify, hash, library calls; one evaluation = one digest string "
              "compared. Distinct = (format, size class, entry point, read profile, #formats in the same pass); non-trivial = "
